@@ -56,7 +56,7 @@ def plan(prop, tier, seed):
         ]
     if prop == "C06" and q:
         return [
-            ("asan", f"n=3,e=2,m=2,x=2,w=1,ws=1,weak=1,plain=1,sameref=1,bare=0,keep=0,layouts={L(2)}", []),
+            ("asan", f"n=3,e=2,m=2,x=2,w=1,ws=1,weak=1,plain=1,sameref=0,bare=0,keep=0,layouts={L(2)}", []),
             ("asan", f"n=3,e=3,m=2,x=2,plain=1,sameref=0,bare=0,keep=0,layouts={L(2)}", []),
             ("asan", f"n=3,e=2,m=2,x=2,w=1,ws=0,weak=1,plain=1,sameref=0,bare=0,keep=0,consume=1,layouts={L(2)}", []),
         ]
